@@ -1635,9 +1635,18 @@ def _spi_compare(got, ref, nodata):
     return bad
 
 
-def c07_spi(entry, pixels, nodata, window=None, groups=None, cal=None):
+def c07_spi(entry, pixels, nodata, window=None, groups=None, cal=None, precision=False):
     from hdc.algo.ops import stats
     rng = np.random.default_rng(43)
+    if precision:
+        # shaped after a single-precision candidate: long int16 records of low variability (large gamma shape), where single-precision
+        # logarithms / sums move the fitted shape enough to change the rounded index
+        for mu, sd, T in ((5000, 60, 300), (12000, 90, 400), (3000, 15, 250), (20000, 400, 350)):
+            p = np.clip(np.round(rng.normal(mu, sd, T)), 1, 32000).astype("int16")
+            res = stats.gammastd_yxt(p.reshape(1, 1, -1), nodata, cal_start=0, cal_stop=T)[0, 0, :]
+            bad = _spi_compare(res, _spi_reference(p, nodata, 0, T), nodata)
+            if bad:
+                return {"violates": True, "why": "low-variability int16 record", "mean": mu, "sd": sd, "steps": T, "bad": bad[:4]}
     base = [np.array(p, dtype="int64") for p in pixels]
     variants = [base]
     for k in range(4):
